@@ -359,6 +359,8 @@ func (prog Progress) focusedTransform(n datamodel.Node, na datamodel.NodeAssembl
 			} else {
 				return fmt.Errorf("transform: cannot navigate path segment %q at %q because a list is here", seg, prog.Path)
 			}
+		} else if ti < 0 {
+			return fmt.Errorf("transform: cannot navigate path segment %q at %q because it is beyond the list bounds", seg, prog.Path)
 		}
 		// Copy children over.  Replace the target (preserving its current position!) while doing this, if found.
 		//  Note that we don't recurse into copying children (assuming AssignNode doesn't); this is as shallow/COW as the AssignNode implementation permits.
